@@ -81,15 +81,49 @@ def worker(kp, job):
     return {'records': records}
 
 
+def batch_worker(kp, job):
+    """batch use: many small documents with different spine layouts are loaded, exported in the six encodings and
+    dropped, in one process; every header row must be ** + prefix + original type of THAT document"""
+    seed, idx = job
+    rng = random.Random(seed * 86028121 + idx)
+    layouts = [['**kern'], ['**kern', '**kern'], ['**text', '**kern'], ['**kern', '**dynam', '**kern'], ['**text', '**kern', '**dynam'],
+               ['**harm', '**kern'], ['**kern', '**fing', '**text'], ['**mxhm', '**kern', '**kern', '**text']]
+    body = {'**kern': ['4c', '4d'], '**text': ['la', 'li'], '**dynam': ['p', 'f'], '**harm': ['I', 'V'], '**fing': ['1', '2'], '**mxhm': ['C', 'G7']}
+    viol = []
+    trail = []
+    n = 0
+    for rnd in range(120):
+        hs = rng.choice(layouts)
+        text = '\t'.join(hs) + '\n' + '\t'.join(body[h][0] for h in hs) + '\n' + '\t'.join(body[h][1] for h in hs) + '\n' + '\t'.join('*-' for _ in hs) + '\n'
+        doc, _ = kp.loads(text)
+        for enc in rng.sample(optprops.ENCODINGS, 3):
+            n += 1
+            if enc in ('akern', 'aekern'):
+                continue            # no clef in these miniatures
+            try:
+                out = kp.dumps(doc, encoding=kp.Encoding(enc))
+            except Exception as e:
+                out = 'err:' + type(e).__name__
+            want = '\t'.join('**' + spec.PREFIX[enc] + h[2:] for h in hs)
+            trail.append((hs, enc))
+            if out.split('\n')[0] != want and not viol:
+                viol.append(('header', f'batch use: after {len(trail) - 1} earlier exports of other documents in this process, the {enc} header row of '
+                             f'{hs} is {out.split(chr(10))[0]!r}, expected {want!r}', {'text': text, 'encoding': enc, 'earlier': [list(t[0]) + [t[1]] for t in trail[-40:]]}))
+        del doc
+    return {'records': [engine.rec('batch', viol=viol, kind='batch', key=('batch', idx, n))]}
+
+
 def run(chk):
     b = core.standard_build(chk)
     model = core.Model() if b.modelrun_ok else None
     full = chk.tier == 'thorough' or bool(b.drift) or not b.proof_ok
     n = core.budget(chk, full, 60, 500)
     chk.rule = ('generated documents (a clef in force for every note, accidentals up to two sharps / flats so that the agnostic '
-                'encodings are defined) x 3 category selections that keep durations or pitches x the six encodings; '
+                'encodings are defined) x 3 category selections that keep durations or pitches x the six encodings; batch '
+                'sessions of 120 small documents of 8 spine layouts loaded, exported and dropped in one process (header rows); '
                 'non-trivial = distinct (text, options)')
     results = engine.pmap(worker, [(chk.seed, i) for i in range(n)])
+    results += engine.pmap(batch_worker, [(chk.seed, i) for i in range(core.budget(chk, full, 16, 64))])
     engine.settle(chk, results, model)
     chk.disagreements_checked = len(chk.broken)
 
